@@ -170,7 +170,7 @@ def handle : Handler := fun j a => do
       -- a re-pointing that failed without leaving any event (target refused the connection)
       { i with cs2 := cs.map fun (h, st) => (h, { st with pingOk := (match final.find? (·.host == h) with | some n => n.alive | none => false), pingDubious := false }),
                repoint := fun h => afterLock2.any fun o => o.s == "changeMaster" && o.host == h && o.ok },
-      { i with eventsOk := false }, { i with optStopOk := false },
+      { i with eventsOk := false }, { i with optStopOk := false }, { i with optStop2Ok := false },
       { i with stopSlaveOk := false }, { i with resetOk := false }, { i with writableOk := false }, { i with masterKeyOk := false }]
     let victim := match jOpt j "fault" with | some f => jStrOr f "kill" "" | none => ""
     -- a node killed while its own freeze statement was in flight may or may not have answered
